@@ -838,6 +838,38 @@ def sec_gates(ctx, rng, case):
     ok, mid = guarded_partial(ctx, lambda: cirq.resolve_parameters(g, r1), m.exprs(), (), "partial-resolution", "gate " + fam + " symbol->expression", **wit)
     if ok:
         matrix_ok(cirq.resolve_parameters(mid, r2), ref, "two-step-resolution")
+    # composition with overlapping keys: r1 rewrites some symbols (to a number, or to an expression in a symbol it leaves alone),
+    # r2 binds every symbol.  Resolving with the composed resolver == resolving with r1 and then with r2.
+    ordered = sorted(names)
+    if ordered:
+        env_b = {s_: XG.gen_value(rng) for s_ in ordered}
+        rewritten = [s_ for s_ in ordered if rng.random() < 0.6] or ordered[:1]
+        kept = [s_ for s_ in ordered if s_ not in rewritten]
+        r1o, env_seq = {}, dict(env_b)
+        for s_ in rewritten:
+            if kept and rng.random() < 0.55:
+                o_ = kept[int(rng.integers(len(kept)))]
+                k_ = float(round(rng.uniform(-1, 1), 3))
+                r1o[s_], env_seq[s_] = S(o_) + k_, env_b[o_] + k_
+            else:
+                v_ = XG.gen_value(rng)
+                r1o[s_], env_seq[s_] = v_, v_
+        try:
+            ref_seq = m.ref(env_seq)
+        except EV.OutOfDomain:
+            ref_seq = None
+            ctx.reject("composition-out-of-real-domain")
+        if ref_seq is not None:
+            w_o = dict(wit, r1={k_: str(v_) for k_, v_ in r1o.items()}, r2=env_b)
+            comp = cirq.resolve_parameters(cirq.ParamResolver(mk_resolver(rng, r1o, wrap=False)), cirq.ParamResolver(mk_resolver(rng, env_b, wrap=False)))
+            u_c = cirq.unitary(cirq.resolve_parameters(g, comp), None)
+            ctx.check(u_c is not None and L.allclose(u_c, ref_seq, ATOL_M), "resolver-composition", "C10:composition:overlapping-keys:" + fam,
+                      "resolving with the composition of r1 and r2 differs from resolving with r1, then r2", **w_o)
+            ok, mid2 = guarded_partial(ctx, lambda: cirq.resolve_parameters(g, mk_resolver(rng, r1o)), m.exprs(), tuple(r1o), "partial-resolution", "gate " + fam + " r1 of a composition", **w_o)
+            if ok:
+                u_s = cirq.unitary(cirq.resolve_parameters(mid2, mk_resolver(rng, env_b)), None)
+                ctx.check(u_s is not None and L.allclose(u_s, ref_seq, ATOL_M), "resolver-composition", "C10:composition:sequential:" + fam,
+                          "resolving with r1 and then r2 differs from the model", **w_o)
     ctx.distinct(("gate", fam, tuple(str(p) for p in m.params)), nontrivial=bool(names) and not L.allclose(ref, np.eye(ref.shape[0]), 1e-6))
     ctx.sample({"family": fam, "params": [str(p) for p in m.params], "env": env})
 
@@ -1163,6 +1195,8 @@ def sec_circuitop(ctx, rng, case):
     mid = _gen_inner_resolver(rng, {n for v in inner.values() for n in EV.free_names(v)} | (body_names - set(inner)), fresh) if nested else None
     rep_kind = int(rng.integers(4))
     rep_val = int(rng.integers(1, 4))
+    if rep_kind in (1, 2) and rng.random() < 0.3:
+        rep_val = -int(rng.integers(1, 3))  # a symbolic count that resolves to a negative integer: the inverse loop
     env["n"] = float(rep_val)
     rep = [rep_val, S("n"), S("n"), S("n") + 1][rep_kind]
     if rep_kind == 3:
@@ -1263,7 +1297,18 @@ def sec_circuitop(ctx, rng, case):
         still = cirq.is_parameterized(r) or any(cirq.is_parameterized(o) for o in unrolled)
     ctx.check(not still, "resolved-not-parameterized", ph_key("C10:still-parameterized:circuit-operation"),
               "CircuitOperation still parameterized after resolving every symbol: %s" % repr(r)[:400], **wit)
-    if ok_rep and not still and not cancels:
+    if ok_rep and not still and not cancels and rep_val < 0:
+        # the inverse loop: compared as a whole (the unrolled operations are the inverses in reverse order)
+        wires_all = list(range(len(dims)))
+        Utot = np.eye(L.dim_of(dims), dtype=complex)
+        for m_ in flat:
+            Utot = L.embed(m_.ref(env, substs), list(m_.wires), dims) @ Utot
+        want_u = np.linalg.matrix_power(Utot.conj().T, -rep_val)
+        qids = [_wire_qid(w_, dims[w_]) for w_ in wires_all]
+        got_u = cirq.Circuit(unrolled).unitary(qubit_order=qids, qubits_that_should_be_present=qids)
+        ctx.check(L.allclose(got_u, want_u, ATOL_M * 10), "circuit-op-resolved", "C10:circuit-op:negative-repetitions",
+                  lambda: "CircuitOperation with repetitions resolved to %d is not the inverse body applied %d times (deviation %.3g)" % (rep_val, -rep_val, L.maxdiff(got_u, want_u)), **wit)
+    elif ok_rep and not still and not cancels:
         got_ops = unrolled
         want_ops = []
         for _ in range(rep_val):
@@ -1280,7 +1325,7 @@ def sec_circuitop(ctx, rng, case):
         ctx.check(cirq.is_parameterized(r_s) and (has_ph or set(cirq.parameter_names(r_s)) == rep_names), "circuit-op-partial",
                   "C10:circuit-op:partial-symbols", "names %s, expected %s" % (sorted(cirq.parameter_names(r_s)), sorted(rep_names)), **wit)
         r_both = cirq.resolve_parameters(r_s, {"n": env["n"]})
-        if not has_ph:
+        if not has_ph and rep_val > 0:
             got_ops = list(r_both.mapped_circuit(deep=True).all_operations())
             check_resolved_ops(ctx, got_ops, flat * rep_val, dims, env, "circuit-operation-two-steps", substs, **wit)
     ctx.distinct(("cop", tuple(m.show() for m in flat), tuple(sorted((k, str(v)) for k, v in inner.items())), str(rep), nested, emb),
